@@ -215,9 +215,13 @@ theorem httpStreamFuel_ok (st : HttpSt) :
     have : 0 < st.rest.length := by cases hr : st.rest with | nil => exact absurd hr this | cons _ _ => simp
     omega
 
+/-- the 16 KiB header budget starts afresh for every request of a kept-alive connection -/
+theorem httpNextTotal_zero (t0 : Nat) (st : HttpSt) : httpNextTotal cfg t0 st = 0 := by
+  simp [httpNextTotal, Gen.httpTotalReadResetPerRequest]
+
 theorem httpConn_eq_flat (lim : Limits) (hb : 0 < lim.bufSize) :
     ∀ (fuel : Nat) (hints : List Bool) (st : HttpSt) (outs : List Outcome),
-      httpFlatConn cfg lim fuel hints st.view = some outs → httpConn lim cfg fuel hints st = outs := by
+      httpFlatConn cfg lim fuel hints st.view = some outs → httpConn lim cfg fuel hints 0 st = outs := by
   intro fuel
   induction fuel with
   | zero =>
@@ -267,7 +271,7 @@ theorem httpConn_eq_flat (lim : Limits) (hb : 0 < lim.bufSize) :
                 | some outs' =>
                   rw [hrec] at h
                   simp only [Option.map_some, Option.some.injEq] at h
-                  rw [ih hints.tail st2 outs' hrec]
+                  rw [httpNextTotal_zero, ih hints.tail st2 outs' hrec]
                   exact h
               · simp only [hk, Bool.false_eq_true, if_false, Option.some.injEq] at h ⊢
                 exact h
